@@ -20,6 +20,7 @@ var cfg = evid.Config{
 func TestProp(t *testing.T) {
 	r := evid.New(t, "C02", cfg)
 	addHistory(r)
+	addStall(r) // thorough tier only
 	r.Main()
 }
 
